@@ -44,7 +44,7 @@ T = {
          'differential runs of the real binary and generated parsers'),
  'C16': ('translation validation + pairwise comparison of parses with and without trivia; Coq theorems for one clause only (the current token and the predicate lookahead are never skipped tokens, for every program/input)',
          'translator + K1/K3 correspondence, trivia-pair oracle'),
- 'C17': ("Coq theorems over a model of the formatter's item generator (Fmt.v = src/backend/format.rs function by function, tied by an item-by-item correspondence through a cfg(lelwel_verif) hook): for every tree and source the string items carry exactly the non-whitespace characters of the token leaves in order, conditions carry no strings, no string contains tab/newline, indentation and newline groups are balanced on every consistent resolution, the generator panics exactly on Decl/Postfix/Regex nodes; lexer lossless theorem (Lexer.v) for the text -> tokens step, C01 for tokens -> tree. The layout engine (dprint-core printer) is outside the model: that its output has the non-whitespace characters of the items is checked per text. Token/diagnostic preservation on valid grammars by exploration",
+ 'C17': ("Coq theorems over a model of the formatter's item generator (Fmt.v = src/backend/format.rs function by function, tied by an item-by-item correspondence through a cfg(lelwel_verif) hook): for every tree and source the string items carry exactly the non-whitespace characters of the token leaves in order, conditions carry no strings, no string contains tab/newline, indentation and newline groups are balanced on every consistent resolution, the generator panics exactly on Decl/Postfix/Regex nodes; lexer lossless theorem (Lexer.v) for the text -> tokens step, C01 for tokens -> tree. The layout engine (dprint-core printer) is outside the model: that its output has the non-whitespace characters of the items is checked per text, which is why the claimed level stays exploration although the generator half is proved. Token/diagnostic preservation on valid grammars by exploration",
          'Rocq proofs over Fmt.v and Lexer.v + item-level correspondence; printer output checked per text'),
  'C18': ('partial by design (the layout engine is an external crate with width-dependent choices and save points; no Gallina model of it was built, so idempotence has no theorem): idempotence explored on random layouts and through the real CLI, known findings recorded; the item generator is tied to Fmt.v by the same correspondence as C17',
          'exploration of the real formatter and CLI; Rocq model of the item generator tied by correspondence'),
@@ -56,11 +56,11 @@ T = {
 
 
 # properties whose Props file proves one clause only: the claimed level stays the level of the rest
-PARTIAL_THEOREMS = ('C03', 'C07', 'C15', 'C16', 'C12', 'C13')
+PARTIAL_THEOREMS = ('C03', 'C07', 'C15', 'C16', 'C12', 'C13', 'C17')
 
 
 def level(pid):
-    if pid in ('C12', 'C13'):
+    if pid in ('C12', 'C13', 'C17'):
         return 'exploration'
     if pid in PARTIAL_THEOREMS:
         return 'translation_validation'
